@@ -193,6 +193,7 @@ theorem step_assemble {cfg : Cfg} {st st' : St} {g : Ghost} {op : Op} {out : Out
     (hrem : pendingRemovedOk p (obsOf st) (obsOf st') = true)
     (hadd : pendingAddedOk g p (obsOf st) (obsOf st') = true)
     (hgone : consumedGoneOk p (obsOf st') = true)
+    (hsp : sentPendingOk out (obsOf st') = true)
     (hreq : requestOk cfg g p out = true)
     (hstat : statusOk op out (obsOf st') = true)
     (hnow : st'.now = nowAfter st op)
@@ -228,7 +229,7 @@ theorem step_assemble {cfg : Cfg} {st st' : St} {g : Ghost} {op : Op} {out : Out
   have hpres : presenceAllOk p (obsOf st) (obsOf st') = true := presence_of_shape rfl rfl hshape
   have hsrc : sourcesOk p op (obsOf st) (obsOf st') = true := sources_of_shape rfl rfl hshape
   refine ⟨?_, ?_⟩
-  · simp only [specStep, hp, hread, hendsOk, hpres, hsrc, hrem, hadd, hgone, hreq, hstat, hli, flag, if_true,
+  · simp only [specStep, hp, hread, hendsOk, hpres, hsrc, hrem, hadd, hgone, hsp, hreq, hstat, hli, flag, if_true,
       List.append_nil]
   · simp only [specStep, hp]
     exact hinv'
@@ -255,6 +256,9 @@ theorem gone_of_not_mem {p : Plan} {st' : St} {rid : ReqId} (h : p.consumed = so
   rw [h]
   have : ¬ rid ∈ (obsOf st').pending := (Dict.not_mem_keys_iff _ _).mpr hn
   simp [this]
+
+theorem sentPending_nil {out : Out} {o : Obs} (h : emitted out = []) : sentPendingOk out o = true := by
+  cases out <;> first | rfl | (simp only [emitted] at h; simp [sentPendingOk, h])
 
 theorem request_nil {cfg : Cfg} {g : Ghost} {p : Plan} {out : Out} (h : emitted out = []) : requestOk cfg g p out = true := by
   unfold requestOk
